@@ -234,7 +234,13 @@ func anyOrNil(v reflect.Value) any {
 
 // checkCmd is the oracle: the command, once encoded and decoded, is recognised as the same
 // function with the same payload type and yields the same filters.
+// disturb, if set, runs between the building of a command and its encoding (see oneCmd).
+var disturb func()
+
 func checkCmd(t world.TB, f *gen.Func, shape string, cmd model.CmdType, wantPartial, wantDelete bool, pSel, dSel, pElem, dElem reflect.Value, payload any) {
+	if disturb != nil {
+		disturb()
+	}
 	b, err := json.Marshal(cmd)
 	if err != nil {
 		world.Fail(t, "C18/cmd/marshal/"+string(f.Fn), "marshal: %v", err)
@@ -349,6 +355,24 @@ func oneCmd(t *rapid.T, f *gen.Func, shape string) bool {
 			noElem = reflect.Zero(reflect.PointerTo(f.ElementsType)).Interface()
 		}
 		world.Label("absent-arguments/typed-nil")
+	}
+	// a command is not always encoded at once: in half of the cases further commands with other filters are built
+	// from the same function object before the command under test is encoded - it keeps its own filters
+	if (nsel || nelem) && rapid.Bool().Draw(t, "laterCommandsBeforeEncoding") {
+		var otherSel, otherElem any
+		if nsel {
+			otherSel = gen.Ptr(t, f.SelectorsType, o, "otherSelector").Interface()
+		}
+		if nelem {
+			otherElem = gen.Ptr(t, f.ElementsType, o, "otherElements").Interface()
+		}
+		disturb = func() {
+			_ = fd.ReadCmdType(otherSel, otherElem)
+			_ = fd.NotifyOrWriteCmdType(nil, otherSel, otherSel == nil, nil)
+			_ = fd.NotifyOrWriteCmdType(otherSel, nil, false, otherElem)
+		}
+		defer func() { disturb = nil }()
+		world.Label("grid/later-commands-built-before-encoding")
 	}
 	switch shape {
 	case "read":
